@@ -129,6 +129,7 @@ func registerVerifrt(reg func(f intrinsicFn, names ...string)) {
 	}, P+"Sleep")
 	reg(func(e *Exec, fn *ssa.Function, args []Value) Value { return e.tf.tt }, P+"Symbolic")
 	reg(func(e *Exec, fn *ssa.Function, args []Value) Value { return nil }, P+"Register")
+	reg(func(e *Exec, fn *ssa.Function, args []Value) Value { return e.strLit("/verifrt-tmp") }, P+"TempDir")
 	reg(func(e *Exec, fn *ssa.Function, args []Value) Value {
 		// LimitWrites(fd, n): from now on writes to fd accept at most n more bytes (model-only)
 		fd := e.fdOf(args[0])
